@@ -290,6 +290,56 @@ def rule_r1c(chk, db, model, plist, router):
     chk.floor("R1c", n, 96, "Ok paths of the router")
 
 
+def rule_r1d(chk, db, model, plist, router):
+    """tag exclusivity: a request that carries exactly one query tag of its method/path cell (plus any of the members of the operations
+    that have this tag, as far as the router looks at them) resolves to an operation whose URI has that tag, or to Err - never to a sibling
+    or to the cell's untagged fallback"""
+    ops = model.operations()
+    by_name = {o.name: o for o in ops}
+    cells = {}
+    for p in plist:
+        m = dict((a[0], v) for a, v in p.conds if a[0] in ("method", "path"))
+        cells.setdefault((m.get("method"), m.get("path")), []).append(p)
+    n = 0
+    for cell in sorted({(o.method, o.path_kind) for o in ops}):
+        tags = sorted({t for o in ops if (o.method, o.path_kind) == cell for t in o.query_tags})
+        ps = cells.get(cell, [])
+        atoms = {a for p in ps for a, _ in p.conds if a[0] in ("has", "pat", "hdr")}
+        for t in tags:
+            # the other things such a request may carry: members of the operations that have this tag
+            mine = set()
+            for o in ops:
+                if (o.method, o.path_kind) == cell and t in o.query_tags:
+                    mine |= {("has", q) for q in list(o.required_queries()) + list(o.optional_queries())}
+                    mine |= {("hdr", h) for h in list(o.required_headers()) + list(o.optional_headers())}
+                    mine |= {("pat", k, v) for k, v in o.query_patterns}
+            others = sorted(a for a in atoms if a in mine and not (a[0] == "has" and a[1] in tags))
+            if len(others) > 10:
+                raise AnchorMissing("C01.R1d: %s/%s?%s: %d routing-relevant members (enumeration bound 10)" % (cell[0], cell[1], t, len(others)))
+            bad = None
+            for mask in range(1 << len(others)):
+                asg = {("method",): cell[0], ("path",): cell[1], ("qs",): "Some", ("has", t): True}
+                for i, a in enumerate(others):
+                    if mask >> i & 1:
+                        asg[a] = True
+                hits = evaluate(plist, asg)
+                n += 1
+                if len(hits) != 1:
+                    continue        # reported by R1
+                leaf = hits[0].leaf
+                if leaf is None or leaf[0] != "Ok":
+                    continue
+                got = by_name.get(leaf[1])
+                if got is None or t not in got.query_tags:
+                    bad = (leaf[1], sorted("=".join(a[1:]) for a in asg if a[0] in ("has", "pat", "hdr")), hits[0])
+                    break
+            chk.verdict(bad is None, "R1d", "%s/%s?%s" % (cell[0], cell[1], t), router.loc(bad[2].leaf[-1]) if bad else router.loc(),
+                        "a %s %s request carrying the query tag `%s` (present: %s) is dispatched to %s, whose URI does not have that tag: a request that denotes "
+                        "no operation (or a sibling) reaches a backend method" % (cell[0], cell[1], t, bad[1] if bad else "", bad[0] if bad else ""))
+    chk.stats["tag_assignments_evaluated"] = n
+    chk.floor("R1d", n, 40, "single-tag assignments evaluated against the router")
+
+
 def rule_r1_flags(chk, db, model, plist, router):
     """needs_full_body flag per operation is a function of the operation (same on every path)."""
     flags = {}
@@ -491,8 +541,18 @@ def run(chk, db, tier):
     sub = Sub(chk, "C12")
     sub.rule("R2", "IP guard: the host parser is reached only when neither parse::<SocketAddr> nor parse::<IpAddr> accepts the whole Host value")
     sub.guard("R2", c12.rule_r2, db, Roles(db))
+    # prerequisite for "causes exactly one invocation": the deserialiser finds the body / path parts the router promised (else it panics
+    # and nothing is invoked; decided for C04)
+    sub4 = Sub(chk, "C04")
+    sub4.rule("R4", "router <-> deserialiser typestate: no unwrap_bucket / unwrap_object on a route of the other kind, no take_*_body without needs_full_body")
+    def _c04_r4(c, db_, model_):
+        from . import c04
+        return c04.rule_r4(c, db_, model_)
+    sub4.guard("R4", _c04_r4, db, model)
     chk.rule("R1c", "converse: every Ok path of the router asserts the URI literals (query tag / k=v pattern) and the method/path cell of the operation it returns")
     chk.guard("R1c", rule_r1c, db, model, plist, router)
+    chk.rule("R1d", "tag exclusivity: a request carrying exactly one query tag of its cell resolves to an operation that has this tag, or to Err; never to a sibling or the untagged fallback")
+    chk.guard("R1d", rule_r1d, db, model, plist, router)
     chk.guard("R2", rule_r2, plist, router)
     chk.guard("R3", rule_r3, db, model, impls)
     chk.guard("R4", rule_r4, db, model, router)
